@@ -352,6 +352,9 @@ func VerifyPKCS1v15(pub *PublicKey, hash crypto.Hash, hashed []byte, sig []byte)
 	// RFC 8017 Section 8.2.2: If the length of the signature S is not k
 	// octets (where k is the length in octets of the RSA modulus n), output
 	// "invalid signature" and stop.
+	if err := checkPub(pub); err != nil {
+		return err
+	}
 	if pub.Size() != len(sig) {
 		return ErrVerification
 	}
